@@ -223,7 +223,7 @@ class Flat:
         out.append(s.store(ty, '%dull' % addr, c))
     def stack_bytes(s):
         # per-thread stack area: the sum of all frames bounds every non-recursive call chain; capped (an overflow is an assertion failure, never silent)
-        return min(s.frame_off, s.stack_cap) + 1024
+        return min(s.frame_off, s.stack_cap) + (0 if s.seq else 1024)   # seq mode: static frames, no recursion slack (fewer pages = cheaper symbolic addresses)
     stack_cap = 32768
     def paged_memory(s):
         a16 = lambda x: (x + 15) & ~15
